@@ -120,7 +120,11 @@ class Store(object):
         return deco
 
     def declare_fields(self, clsname, **fields):
-        self.fields.setdefault(clsname, {}).update(fields)
+        cur = self.fields.setdefault(clsname, {})
+        for f, srt in fields.items():
+            if f in cur and cur[f] != srt:
+                raise ValueError("field %s.%s declared %r, redeclared %r" % (clsname, f, cur[f], srt))
+            cur[f] = srt
 
     def find(self, relfile, qualname):
         return self.contracts.get("%s::%s" % (relfile, qualname))
